@@ -49,7 +49,7 @@ CHECKS.update({
                 "bound pods pairwise disjoint, no live pod's IP owned by another pod key. Non-trivial = >=2 pods bound and (an IP changed "
                 "owner, or an episode overlapped >=2 ops); distinct by SHA-1 of the case. A quarter of the histories carry one injected API error "
                 "(internal/conflict/timeout on the k-th API call of a drawn op or episode); reloads and restarts are drawn; an IP an "
-                "administrator de-configured while in use is exempt from then on.", floors={"two_pods_bound": 0.2, "same_name_recreated": 0.3}, enum=True),
+                "administrator de-configured while in use is exempt from then on.", quick=5000, floors={"two_pods_bound": 0.2, "same_name_recreated": 0.3}, enum=True),
     "C02": hist("TestC02", GEN + "Biased to immutable/never/pool workloads and delete/recreate/reschedule. Oracle per filter/bind: a pod "
                 "whose key holds a reserved IP is only offered nodes routable for it and is bound with exactly that IP; a deployment/pool "
                 "pod whose app prefix holds reserved IPs gets one of them. Non-trivial = a binding happened while a reservation for that "
@@ -66,7 +66,7 @@ CHECKS.update({
     "C10": hist("TestC10", GEN + "Recording cloud provider with cleanly failing calls. Oracle: per-IP state machine none|on(node) replayed "
                 "over the call log after every op/step (no assign to a second node while assigned, live bound pod's IP on its node, free "
                 "IP unassigned). Non-trivial = a pod identity was bound on two different nodes or a provider call failed.",
-                floors={"provider_call_failed": 0.05}),
+                quick=5000, floors={"provider_call_failed": 0.05}),
 })
 
 CHECKS["C05"] = {"pkg": "ipamsim", "test": "TestC05", "level": "fault_enumeration",
